@@ -185,7 +185,9 @@ def improve_node_matrix_constraint(pomdp, V, node, *, solver=Solvers.scipy_lp, s
     # HACK: for actions with near-0 probabilities, we code in a uniform distribution over next internal states since
     # the above division by a near-0 p(a|s) usually means this doesn't sum to 1 because of numerical errors.
     # We mostly do this because we check that these distributions sum to 1 in other methods.
-    observation_strategy[np.isclose(c_a, np.zeros(c_a.shape))] = 1/ncontroller
+    # The threshold has to be above the LP solver's feasibility tolerance (1e-7): below it the
+    # constraints sum_{n_z} c_{a,n_z} = c_a only hold up to that tolerance, so the ratios are noise.
+    observation_strategy[np.isclose(c_a, np.zeros(c_a.shape), atol=1e-6)] = 1/ncontroller
     assert np.allclose(observation_strategy.sum(-1), 1)
 
     def add_to_fsc(fsc_action, fsc_state, *, inplace=True):
